@@ -92,6 +92,18 @@ def mk_cell(pos, value=None, style=0):
     return Cell(s - 1, repo.col_letters(c), str(r), value)
 
 
+def rejected_set(ex, pos, rng):
+    """A set_cells call that must be rejected as a whole: valid cells (among them cells beyond the used ranges), then a cell that
+    cannot exist. -> True when the library rejected the call with its own exception class."""
+    pre = [mk_cell(pos[c], 77, rng.randint(0, 3)) for c in rng.sample(['S1F4', 'S2C3', 'S1A1', 'S1B2'], rng.randint(0, 2))]
+    bad = rng.choice([lambda: Cell('No such sheet', 0, 0, 1), lambda: Cell(0, 'A', '0', 1)])()
+    try:
+        ex.set_cells(pre + [bad])
+    except repo.E2PyclException:
+        return True
+    return False
+
+
 def val_json(kind, payload):
     """Observed result -> the small value JSON of Workbook4 (num / blank / err / other)."""
     if kind == 'exc':
